@@ -312,7 +312,7 @@ Proof. intros. unfold msg_frames. rewrite hframes_app, app_assoc. reflexivity. Q
 
 Lemma msg_okb_iff : forall m l, msg_okb m l = true <-> msg_spec m l.
 Proof.
-  intros m l. unfold msg_okb, msg_spec.
+  intros m l. unfold msg_okb, msg_pseudo_okb, msg_headers_okb, msg_data_okb, msg_spec.
   rewrite !andb_true_iff, !(list_eqb_eq frame_eqb frame_eqb_eq), (perm_b_iff frame_eqb frame_eqb_eq).
   split.
   - intros [[HP HH] HD].
